@@ -14,23 +14,26 @@ from framework import graph_replay
 from checks import futurelib as fl
 from checks import mutexlib as ml
 
-# constant -> (operation, regex on the enclosing function of the call site)
+# constant -> (operation, label of the atomic object (registered by the harness) or None, regex on the enclosing
+# function of the call site or None, discriminator).  Sites are identified by the OBJECT they operate on wherever the
+# harness can name it (robust against renamed functions); the function name is only used where the object lives
+# inside a coroutine frame or on a waiter's stack.
 SITES = {
-    "MO_resolve": ("xchg", r"resume_chain_set_ready"),
-    "MO_ready": ("load", r"future_common::ready\("),
-    "MO_sub": ("cas", r"subscribe_check_ready"),
-    "MO_fence": ("fence", r"subscribe_check_ready"),
-    "MO_flag_store": ("store", r"sync_awaiter::wakeup"),
-    "MO_flag_wait": ("wait", r"co_awaiter<.*>::(force_)?sync\(|::sync\(\)"),
-    "MO_try": ("cas", r"mutex::ready\("),
-    "MO_msub": ("cas", r"(mutex|awaiter)::subscribe\("),
-    "MO_bq": ("xchg", r"mutex::build_queue"),
-    "MO_ucas": ("cas", r"mutex::unlock"),
-    "MO_busy_xchg": ("xchg", r"reusable_storage_mtsafe::alloc"),
-    "MO_busy_store": ("store", r"reusable_storage_mtsafe::dealloc"),
-    "MO_block_reset": ("store", r"promise_type::next_sync"),
-    "MO_block_set": ("store", r"promise_type::unblock_sync"),
-    "MO_block_wait": ("wait", r"promise_type::next_sync"),
+    "MO_resolve": ("xchg", "future.slot", None),
+    "MO_ready": ("load", "future.slot", r"ready\("),      # pending()/initialized() also load the slot (relaxed, no publication)
+    "MO_sub": ("cas", "future.slot", None),
+    "MO_fence": ("fence", None, r"subscribe|awaiter"),
+    "MO_flag_store": ("store", "-", r"sync_awaiter"),
+    "MO_flag_wait": ("wait", "-", r"co_awaiter<"),
+    "MO_try": ("cas", "mutex.requests", r"ready\(|try_lock"),
+    "MO_msub": ("cas", "mutex.requests", r"subscribe\("),
+    "MO_bq": ("xchg", "mutex.requests", None),
+    "MO_ucas": ("cas", "mutex.requests", r"unlock"),
+    "MO_busy_xchg": ("xchg", "mtsafe_storage", None),
+    "MO_busy_store": ("store", "mtsafe_storage", None),
+    "MO_block_reset": ("store", "-", r"promise_type::next_sync"),
+    "MO_block_set": ("store", "-", r"promise_type::unblock_sync"),
+    "MO_block_wait": ("wait", "-", r"promise_type::next_sync"),
 }
 
 
@@ -47,7 +50,7 @@ def read_tables(paths):
             raise MachineryError("memory-order table %s was not written" % p)
         for line in open(p):
             parts = line.rstrip("\n").split("\t")
-            if len(parts) == 4:
+            if len(parts) == 5:
                 rows.add(tuple(parts))
         os.remove(p)
     return rows
@@ -56,10 +59,14 @@ def read_tables(paths):
 def bind(rows):
     """-> dict constant -> order (CAS sites give X and X_fail)"""
     out = {}
-    for const, (op, rx) in SITES.items():
-        found = {(r[2], r[3]) for r in rows if r[0] == op and re.search(rx, r[1])}
+    for const, (op, label, rx) in SITES.items():
+        found = {(r[3], r[4]) for r in rows if r[0] == op and (label is None or r[1] == label) and (rx is None or re.search(rx, r[2]))}
+        if not found and const == "MO_fence":
+            # no fence is executed at all on the refused-subscription path: model it as absent
+            out[const] = "relaxed"
+            continue
         if not found:
-            raise MachineryError("unbound site: no executed %s matching /%s/ (needed for %s)" % (op, rx, const))
+            raise MachineryError("unbound site: no executed %s on %s matching /%s/ (needed for %s)" % (op, label, rx, const))
         if len(found) > 1:
             raise MachineryError("ambiguous site %s: %s" % (const, sorted(found)))
         mo, mof = next(iter(found))
